@@ -32,7 +32,10 @@ InLevels(l) == \/ IOEnv.VEL_LEVELS = "all"
                \/ l = IOEnv.VEL_LEVELS
                \/ IOEnv.VEL_LEVELS = "struct,approver" /\ l \in {"struct", "approver"}
 Selected(nd) == InLevels(Cases[nd.c].level)
-Roots == {i \in DOMAIN Nodes : Nodes[i].root = 1 /\ Selected(Nodes[i])}
+\* a graph whose alphabet has no request counted by the monitored control cannot violate it
+HasOps(c, ops) == \E k \in DOMAIN c.reqs : c.reqs[k].op \in ops
+Relevant(c) == CASE Mon = "pay" -> HasOps(c, PayOps) [] Mon = "fee" -> HasOps(c, FeeOps) [] OTHER -> TRUE
+Roots == {i \in DOMAIN Nodes : Nodes[i].root = 1 /\ Selected(Nodes[i]) /\ Relevant(Cases[Nodes[i].c])}
 
 RespOf(e) == [ok |-> e[3] = 1]
 
